@@ -6,6 +6,9 @@ use crate::macsuites::*;
 use crate::util::*;
 
 pub fn eval(op: &str) -> String {
+    if let Some(r) = crate::adevgen::eval_dev_any(op) {
+        return r;
+    }
     let outs = run_history(op);
     format!("{} ## oracle={}", outs.join(" ; "), oracle_c09_c10(op, &outs, true, false))
 }
@@ -70,5 +73,7 @@ pub fn run(tier: &str, seed: u64, dir: &str) {
             }
         }
     }
+    // device level: both front-ends with the scripted radio (see adevgen::add_dev_classes)
+    crate::adevgen::add_dev_classes("C09", &mut rng, &mut sink, thorough, eval);
     sink.finish(dir, "MAC histories with OTAA joins (CFLists), LinkADRReq / NewChannelReq / DlChannelReq downlinks, ADR back-off, application data-rate changes, join bias, antenna gains {0,2,-3,6} and board powers {2,14,20,30}; a state snapshot follows every step so that each TxConfig is judged against the plan in force; forced RNG draws enumerate channel choices of the initial state; plans reduced to a single enabled slot at every index. Non-trivial = every case.", false, serde_json::json!({}));
 }
